@@ -112,13 +112,13 @@ OrderOK(Ls, sort, out) ==
   LET ne == SelectSeq(Ls, LAMBDA L : Len(L) > 0)
   IN /\ NoDup(out)
      /\ sort => IsInc(out)
-     /\ (Len(ne) > 0 /\ \A i \in 1..Len(ne) : Len(ne[i]) >= 2 /\ IsInc(ne[i])) => IsInc(out)
-     /\ (Len(ne) > 0 /\ \A i \in 1..Len(ne) : Len(ne[i]) >= 2 /\ IsDec(ne[i])) => IsDec(out)
+     /\ (~sort /\ \A i \in 1..Len(Ls) : Len(Ls[i]) >= 2 /\ IsInc(Ls[i])) => IsInc(out)
+     /\ (~sort /\ \A i \in 1..Len(Ls) : Len(Ls[i]) >= 2 /\ IsDec(Ls[i])) => IsDec(out)
      /\ (Len(ne) > 0 /\ ~sort /\ \A i \in 1..Len(ne) : ne[i] = ne[1]) => out = ne[1]
 UnionOK(Ls, sort, out) == Rng(out) = UnionSet(Ls) /\ OrderOK(Ls, sort, out)
 InterOK(Ls, sort, out) == Rng(out) = InterSet(Ls) /\ NoDup(out) /\ (sort => IsInc(out))
-                          /\ ((\A i \in 1..Len(Ls) : Len(Ls[i]) >= 2 /\ IsInc(Ls[i])) => IsInc(out))
-                          /\ ((\A i \in 1..Len(Ls) : Len(Ls[i]) >= 2 /\ IsDec(Ls[i])) => IsDec(out))
+                          /\ ((~sort /\ \A i \in 1..Len(Ls) : Len(Ls[i]) >= 2 /\ IsInc(Ls[i])) => IsInc(out))
+                          /\ ((~sort /\ \A i \in 1..Len(Ls) : Len(Ls[i]) >= 2 /\ IsDec(Ls[i])) => IsDec(out))
                           /\ ((~sort /\ \A i \in 1..Len(Ls) : Ls[i] = Ls[1]) => out = Ls[1])
 
 (* ---------- C07: source position for each requested label: 0 = fill ---------- *)
